@@ -2,6 +2,7 @@
 
 Implementation under test: NumPyPoseBody.interpolate (numpy/pose_body.py:301-386), called directly and through
 the Pose.interpolate pass-through.  Model: coq/model/C14_*.v, extracted runner "c14" (binary64 instance)."""
+import bisect
 import struct
 import warnings
 from fractions import Fraction
@@ -164,7 +165,7 @@ def gen_count(rng):
     else:
         new = rng.uniform(0.05, 4.0) * old
     n_est = F * new / old
-    if n_est > 4000:
+    if n_est > 1500:
         new = old
     pats = [[[1] * F]]
     return make_case(rng, F, 1, 1, 1, pats, old, new, "linear", "body", "affine")
@@ -215,13 +216,15 @@ class C14(common.Prop):
     ID = "C14"
     RUNNER = "c14"
     RUNNER_FLOATS = True
-    ALLOWED_AXIOMS = set(common.REALS_AXIOMS)
+    # Reals axioms + the kernel's primitive-float operations that Print Assumptions lists unqualified
+    ALLOWED_AXIOMS = set(common.REALS_AXIOMS) | {"of_uint63", "normfr_mantissa", "frshiftexp", "ldshiftexp", "classify", "compare",
+                                                  "next_up", "next_down", "of_sint63"}
     MODEL_FILES = ["base/Num.v", "model/C14_Count.v", "model/C14_Interp.v", "model/C14_Spline.v", "model/C14_Run.v"]
     RULE = ("bodies with F 2..8 (..12 thorough) frames, 1..3 people, 1..4 points, 1..3 dims; each track draws an observation "
             "pattern class (never/full/once/first/last/ends/prefix/suffix/gaps/inner/random), thorough adds every pattern over "
             "<= 8 frames; rates from 14 source rates x 16 ratios (same, None, integer and non-integer up/down-sampling, random); "
             "three kinds; random or affine-in-time values (garbage under the mask), float64 or float32 arrays; direct call and "
-            "Pose pass-through; a frame-count stream (exact .5 quotients, counts up to 4000) and a malformed stream (1 frame, "
+            "Pose pass-through; a frame-count stream (exact .5 quotients, counts up to 1500) and a malformed stream (1 frame, "
             "fps 0, negative/zero target, 0 or 1 new frames, no people/points); np.linspace grids n <= 64. Compared: frame count, "
             "fps, mask exactly (conf within 1e-9 of 0 either way), values and confidence within 1e-9*max(1,|track|). "
             "non-trivial = accepted by the implementation with >= 1 observed track; distinct by content hash")
@@ -254,7 +257,7 @@ class C14(common.Prop):
     def gen_cases(self, rng, tier):
         for n in ([0, 1, 2, 3, 4, 5, 7, 8, 12, 15, 16, 23, 31, 50, 64] if tier == "quick" else list(range(0, 65)) + [100, 257, 1000]):
             yield {"op": "grid", "n": n}
-        n_struct, n_count, n_mal = (330, 50, 30) if tier == "quick" else (5200, 900, 400)
+        n_struct, n_count, n_mal = (330, 50, 30) if tier == "quick" else (9000, 1500, 600)
         if tier == "thorough":
             for F in (2, 3, 4, 5, 6, 7, 8):
                 for c in all_patterns_cases(rng, F):
@@ -435,11 +438,14 @@ class C14(common.Prop):
         scale = self._scales(case)
         tracks = self._tracks(case)
 
+        tnew_l = [Fraction(j, n - 1) if n > 1 else Fraction(0) for j in range(n)]
+        told_l = [Fraction(i, F - 1) for i in range(F)]
+
         def tnew(j):
-            return Fraction(j, n - 1) if n > 1 else Fraction(0)
+            return tnew_l[j]
 
         def told(i):
-            return Fraction(i, F - 1)
+            return told_l[i]
 
         def row_in(i, p, t):
             ci = (i * P + p) * T + t
@@ -455,6 +461,8 @@ class C14(common.Prop):
 
         for (p, t), obs in tracks.items():
             tol = TOL * scale[(p, t)]
+            obs_time = {told(i): i for i in obs}
+            obs_t = [told(i) for i in obs]
             for j in range(n):
                 tj = tnew(j)
                 ro = row_out(j, p, t)
@@ -479,8 +487,9 @@ class C14(common.Prop):
                 if undecided:
                     continue
                 # inside [first, last]
-                if len(obs) == 1 or tj in [told(i) for i in obs]:
-                    i = [i for i in obs if told(i) == tj]
+                at = obs_time.get(tj)
+                if len(obs) == 1 or at is not None:
+                    i = [] if at is None else [at]
                     if i and (new_steps[j] == steps[i[0]] or len(obs) > 1):
                         ri = row_in(i[0], p, t)
                         if max(abs(x - y) for x, y in zip(ro, ri)) > tol:
@@ -493,8 +502,8 @@ class C14(common.Prop):
                     if max(abs(x - y) for x, y in zip(ro, ex)) > tol or any(mk):
                         return {"clause": "affine", "what": "affine trajectory not reproduced by %s (got %s, expected %s) at %s" % (case["kind"], ro, ex, where)}
                 if case["kind"] == "linear" and len(obs) > 1:
-                    i_lo = max(i for i in obs if told(i) <= tj)
-                    i_hi = min(i for i in obs if told(i) >= tj)
+                    i_lo = obs[bisect.bisect_right(obs_t, tj) - 1]
+                    i_hi = obs[bisect.bisect_left(obs_t, tj)]
                     rl, rh = row_in(i_lo, p, t), row_in(i_hi, p, t)
                     for d in range(D + 1):
                         if not (min(rl[d], rh[d]) - tol <= ro[d] <= max(rl[d], rh[d]) + tol):
